@@ -193,6 +193,13 @@ def check_root_guard(rep: Report, prog: Program, resolver: Resolver, qual: str) 
     if not divs and dm_done:
         return
     if not divs:
+        true_divs = [n for n in ast.walk(fn) if isinstance(n, ast.BinOp) and isinstance(n.op, ast.Div)
+                     and any(isinstance(c, ast.Call) and any(n is x for a in c.args for x in ast.walk(a)) for c in ast.walk(fn))]
+        if true_divs:
+            rep.fail("R01.2", f"{qual}:{ast.unparse(true_divs[0])[:40]}", f"{qual} passes the true quotient `{ast.unparse(true_divs[0])[:50]}` to the constructor: an exact "
+                     "root of an int exponent comes out as a float (4.0), which interns under the key of the int (4) when that does not exist yet - later "
+                     "expressions for the same object then get the float-valued one (its scale is 10000.0, not 10000)", fi.where(true_divs[0]))
+            return
         raise AnalysisError(f"{qual}: no floor division found (R01.2 anchor moved)")
     for n, comp in divs:
         key = f"{qual}:{ast.unparse(n)}"
